@@ -326,6 +326,20 @@ def drv_hedger(ctx, k, rng):
         with torch.no_grad():
             hedger.compute_pl(derivative, hedge)
             hedger.compute_portfolio(derivative, hedge)
+    if rng.random() < 0.3:
+        # the older spelling compute_pnl(derivative, hedge, n_paths, init_state) = simulate, then compute_pl (each judged by the identity contract as well)
+        sd = int(rng.integers(1 << 30))
+        mon = "hedger.compute_pnl_is_simulate_then_pl"
+        ctx.seen(mon)
+        with torch.no_grad():
+            torch.manual_seed(sd)
+            x = hedger.compute_pnl(derivative, hedge, n_paths=n_paths)
+            torch.manual_seed(sd)
+            derivative.simulate(n_paths=n_paths)
+            y = hedger.compute_pl(derivative, hedge)
+        ctx.check(mon, x.shape == y.shape and bool(((x == y) | (torch.isnan(x) & torch.isnan(y))).all()), "compute_pnl",
+                  "compute_pnl(derivative, hedge, n_paths) differs from simulate(n_paths) followed by compute_pl under the same seed",
+                  sig=(desc["derivative"], desc["hedge"], desc["model"]), desc=desc, compute_pnl=x[:4], simulate_then_pl=y[:4])
     if k < 4:
         ctx.sample({"driver": "hedger", **desc, "pl_head": a[:3]})
 
